@@ -1,4 +1,4 @@
-CONSTANT TransposeCapped = TRUE
+CONSTANT TransposeCapped = FALSE
 INIT Init
 NEXT Next
 INVARIANT Inv
